@@ -3,6 +3,8 @@ CONSTANTS Caps = {3, 7, 16}
  MaxN = 18
  MaxTotal = 1000
  DiscardRewinds = FALSE
+ MaxCreates = 2
+ CreateKeepsPointers = FALSE
  SimDepth = 14
 INVARIANTS Emit
 CHECK_DEADLOCK FALSE
